@@ -73,7 +73,7 @@ def run(tier):
                 lexical[n] = {"range": e["range"], "nodeLevel": False, "propLevel": True}
         cases.append({"id": "lx%05d" % i, "world": WORLD, "kinds": [0], "formulas": FORMULAS, "spell": 0,
                       "level": {"direct": rnd.choice(["violation", "warning"]), "viaNested": "violation"},
-                      "lexical": lexical, "hasSource": s["hasMaps"], "root": s["src"]["root"],
+                      "lexical": lexical, "hasSource": s["hasMaps"] and s["hasSource"], "root": s["src"]["root"],
                       "additional": {f: sorted(ns) for f, ns in s["src"]["additional"].items() if ns},
                       "rangeStyle": rnd.randrange(6), "compareStripped": True})
     obs = vlib.run_harness("reporttree", cases, "c14", timeout=3000)
@@ -97,6 +97,9 @@ def run(tier):
                                                       ("uri", "startLine", "startColumn", "endLine", "endColumn")}
             if want:
                 nloc += 1
+                if not s["hasSource"]:
+                    # no file is named anywhere: the property fixes the numbers, not the uri
+                    want = dict(want, uri=(got or {}).get("uri"))
             if got != want:
                 kind = "missing location" if got is None else ("unexpected location" if want is None else
                                                                 "wrong " + "+".join(k for k in want if want[k] != got.get(k)))
